@@ -11347,6 +11347,13 @@ func (p *parser) visitAndAppendStmt(stmts []js_ast.Stmt, stmt js_ast.Stmt) []js_
 						hasSideEffectFreeArguments = false
 						break
 					}
+
+					// A default value is evaluated when the argument is missing, so a
+					// call to this function can only be removed if that has no effect
+					if arg.DefaultOrNil.Data != nil && !p.astHelpers.ExprCanBeRemovedIfUnused(arg.DefaultOrNil) {
+						hasSideEffectFreeArguments = false
+						break
+					}
 				}
 				if hasSideEffectFreeArguments {
 					p.symbols[s.Fn.Name.Ref.InnerIndex].Flags |= ast.IsEmptyFunction
